@@ -4,6 +4,7 @@ import (
 	"fmt"
 	"go/token"
 	"go/types"
+	"sort"
 	"strings"
 
 	"golang.org/x/tools/go/ssa"
@@ -315,4 +316,345 @@ func checkCtxFlow(P *Program, prop string) []StructResult {
 		}
 	}
 	return out
+}
+
+// ---------------------------------------------------------------- monotone flags (C12)
+//   //@ global monotone-flag <pkg>.<Type>.<field> <property>
+// Every store to the field, anywhere in both packages, stores the constant true (or initialises an object allocated
+// in the same function): the typestate only ever moves forward, whatever the call history.
+
+func init() { structuralChecks = append(structuralChecks, checkMonotoneFlags) }
+
+func checkMonotoneFlags(P *Program, prop string) []StructResult {
+	var out []StructResult
+	for _, d := range P.Decls {
+		if d.Kind != "global" || d.Name != "monotone-flag" {
+			continue
+		}
+		f := strings.Fields(d.Attr)
+		if len(f) < 2 || f[1] != prop {
+			continue
+		}
+		parts := strings.Split(f[0], ".")
+		if len(parts) != 3 {
+			continue
+		}
+		res := StructResult{Name: "monotone-flag:" + f[0], OK: true}
+		n := 0
+		for _, fn := range P.allFuncs {
+			for _, b := range fn.Blocks {
+				for _, in := range b.Instrs {
+					st, ok := in.(*ssa.Store)
+					if !ok {
+						continue
+					}
+					fa, ok := st.Addr.(*ssa.FieldAddr)
+					if !ok {
+						continue
+					}
+					pt, ok := fa.X.Type().Underlying().(*types.Pointer)
+					if !ok {
+						continue
+					}
+					named, ok := pt.Elem().(*types.Named)
+					if !ok || named.Obj().Name() != parts[1] || named.Obj().Pkg() == nil || named.Obj().Pkg().Name() != parts[0] {
+						continue
+					}
+					stT := named.Underlying().(*types.Struct)
+					if stT.Field(fa.Field).Name() != parts[2] {
+						continue
+					}
+					n++
+					if c, ok := st.Val.(*ssa.Const); ok && c.Value != nil && c.Value.String() == "true" {
+						continue
+					}
+					if _, fresh := fa.X.(*ssa.Alloc); fresh {
+						continue
+					}
+					res.OK = false
+					res.Detail += fmt.Sprintf("%s stores a value other than the constant true into %s (%s); ", fnKey(fn), f[0], posOf(fn, st.Pos()))
+				}
+			}
+		}
+		if res.OK {
+			res.Detail = fmt.Sprintf("%d store(s), all of the constant true or initialisations", n)
+		}
+		out = append(out, res)
+	}
+	return out
+}
+
+// ---------------------------------------------------------------- package-level state (C14)
+// Two interpreters share nothing but package-level variables. Discipline per variable (default: write-once):
+//   //@ global <name> write-once | atomic [except f,g] | guarded-by | test-hook
+// write-once : stored only by package initialisation; nothing reachable through it (map entries, slice elements,
+//              fields) is written outside initialisation either (value flow followed inside each function)
+// atomic     : every reference is an argument of a sync/atomic function
+// guarded-by : (a struct embedding sync.RWMutex) every read of its fields is dominated by Lock/RLock on it, every write
+//              by Lock, unlocking only by defer; and a write's critical section also contains every guarded read that
+//              precedes it (check-then-act in one critical section)
+// test-hook  : written only from _test.go files (not part of the loaded program)
+
+func init() { structuralChecks = append(structuralChecks, checkGlobals) }
+
+func isInitFn(fn *ssa.Function) bool {
+	return fn.Parent() == nil && (fn.Name() == "init" || strings.HasPrefix(fn.Name(), "init#"))
+}
+
+// derivedFromGlobal: does v denote memory reachable from global g (its address, a load of it, or an address/value
+// obtained from those by field/index/slice operations)?
+func derivedFromGlobal(v ssa.Value, g *ssa.Global, depth int) bool {
+	if depth > 8 {
+		return false
+	}
+	switch x := v.(type) {
+	case *ssa.Global:
+		return x == g
+	case *ssa.FieldAddr:
+		return derivedFromGlobal(x.X, g, depth+1)
+	case *ssa.IndexAddr:
+		return derivedFromGlobal(x.X, g, depth+1)
+	case *ssa.Field:
+		return derivedFromGlobal(x.X, g, depth+1)
+	case *ssa.Index:
+		return derivedFromGlobal(x.X, g, depth+1)
+	case *ssa.Slice:
+		return derivedFromGlobal(x.X, g, depth+1)
+	case *ssa.ChangeType:
+		return derivedFromGlobal(x.X, g, depth+1)
+	case *ssa.UnOp:
+		if x.Op == token.MUL {
+			return derivedFromGlobal(x.X, g, depth+1)
+		}
+	case *ssa.Phi:
+		for _, e := range x.Edges {
+			if derivedFromGlobal(e, g, depth+1) {
+				return true
+			}
+		}
+	}
+	return false
+}
+
+func checkGlobals(P *Program, prop string) []StructResult {
+	if prop != "C14" {
+		return nil
+	}
+	var out []StructResult
+	for _, path := range []string{enginePath, rootPath} {
+		pkg := P.Pkgs[path]
+		var names []string
+		for n, m := range pkg.Members {
+			if _, ok := m.(*ssa.Global); ok && !strings.HasPrefix(n, "init$") {
+				names = append(names, n)
+			}
+		}
+		sort.Strings(names)
+		for _, n := range names {
+			g := pkg.Members[n].(*ssa.Global)
+			disc, except := "write-once", map[string]bool{}
+			if d, ok := P.Globals[n]; ok {
+				f := strings.Fields(d.Attr)
+				if len(f) > 0 {
+					disc = f[0]
+				}
+				for i, w := range f {
+					if w == "except" && i+1 < len(f) {
+						for _, e := range strings.Split(f[i+1], ",") {
+							except[e] = true
+						}
+					}
+				}
+			}
+			res := StructResult{Name: "global:" + pkg.Pkg.Name() + "." + n + ":" + disc, OK: true}
+			var bad []string
+			for _, fn := range P.allFuncs {
+				if except[fn.Name()] {
+					continue
+				}
+				switch disc {
+				case "write-once", "test-hook":
+					if isInitFn(fn) {
+						continue
+					}
+					for _, b := range fn.Blocks {
+						for _, in := range b.Instrs {
+							switch x := in.(type) {
+							case *ssa.Store:
+								if derivedFromGlobal(x.Addr, g, 0) {
+									bad = append(bad, fmt.Sprintf("%s writes memory reachable from it (%s)", fnKey(fn), posOf(fn, x.Pos())))
+								}
+							case *ssa.MapUpdate:
+								if derivedFromGlobal(x.Map, g, 0) {
+									bad = append(bad, fmt.Sprintf("%s updates a map reachable from it (%s)", fnKey(fn), posOf(fn, x.Pos())))
+								}
+							case ssa.CallInstruction:
+								c := x.Common()
+								if bi, ok := c.Value.(*ssa.Builtin); ok && (bi.Name() == "delete" || bi.Name() == "copy") && len(c.Args) > 0 && derivedFromGlobal(c.Args[0], g, 0) {
+									bad = append(bad, fmt.Sprintf("%s deletes from / copies into memory reachable from it (%s)", fnKey(fn), posOf(fn, x.Pos())))
+								}
+							}
+						}
+					}
+				case "atomic":
+					for _, b := range fn.Blocks {
+						for _, in := range b.Instrs {
+							if _, isDbg := in.(*ssa.DebugRef); isDbg {
+								continue
+							}
+							for _, op := range in.Operands(nil) {
+								if *op != ssa.Value(g) {
+									continue
+								}
+								ok := false
+								if ci, isCall := in.(ssa.CallInstruction); isCall {
+									if callee := ci.Common().StaticCallee(); callee != nil {
+										if callee.Pkg != nil && callee.Pkg.Pkg.Path() == "sync/atomic" {
+											ok = true
+										}
+										if o := callee.Object(); o != nil && o.Pkg() != nil && o.Pkg().Path() == "sync/atomic" {
+											ok = true
+										}
+									}
+								}
+								if !ok {
+									if ci, isCall := in.(ssa.CallInstruction); isCall {
+										if callee := ci.Common().StaticCallee(); callee != nil && strings.HasPrefix(callee.String(), "sync/atomic.") {
+											continue
+										}
+									}
+									bad = append(bad, fmt.Sprintf("%s accesses it without sync/atomic (%s) [%T %v]", fnKey(fn), posOf(fn, in.Pos()), in, in))
+								}
+							}
+						}
+					}
+				case "guarded-by":
+					if isInitFn(fn) {
+						continue // package initialisation runs before any other goroutine can exist
+					}
+					bad = append(bad, lockDiscipline(fn, g)...)
+				}
+			}
+			if len(bad) > 0 {
+				res.OK = false
+				res.Detail = strings.Join(bad, "; ")
+			}
+			out = append(out, res)
+		}
+	}
+	return out
+}
+
+// lockDiscipline for a guarded global (struct embedding sync.RWMutex as its first field)
+func lockDiscipline(fn *ssa.Function, g *ssa.Global) []string {
+	type acc struct {
+		in    ssa.Instruction
+		write bool
+	}
+	var accs []acc
+	type lk struct {
+		in   ssa.Instruction
+		kind string // Lock RLock Unlock RUnlock
+		def  bool
+	}
+	var locks []lk
+	isMutexOfG := func(v ssa.Value) bool {
+		fa, ok := v.(*ssa.FieldAddr)
+		return ok && fa.X == ssa.Value(g) && fa.Field == 0
+	}
+	for _, b := range fn.Blocks {
+		for _, in := range b.Instrs {
+			switch x := in.(type) {
+			case *ssa.Store:
+				if derivedFromGlobal(x.Addr, g, 0) {
+					accs = append(accs, acc{in, true})
+				}
+			case *ssa.MapUpdate:
+				if derivedFromGlobal(x.Map, g, 0) {
+					accs = append(accs, acc{in, true})
+				}
+			case *ssa.UnOp:
+				if x.Op == token.MUL && derivedFromGlobal(x.X, g, 0) {
+					if fa, ok := x.X.(*ssa.FieldAddr); ok && fa.X == ssa.Value(g) && fa.Field == 0 {
+						continue
+					}
+					accs = append(accs, acc{in, false})
+				}
+			case *ssa.Lookup:
+				if derivedFromGlobal(x.X, g, 0) {
+					accs = append(accs, acc{in, false})
+				}
+			case ssa.CallInstruction:
+				c := x.Common()
+				callee := c.StaticCallee()
+				if callee == nil || callee.Pkg == nil || callee.Pkg.Pkg.Path() != "sync" || len(c.Args) == 0 || !isMutexOfG(c.Args[0]) {
+					continue
+				}
+				_, isDefer := in.(*ssa.Defer)
+				locks = append(locks, lk{in, callee.Name(), isDefer})
+			}
+		}
+	}
+	if len(accs) == 0 {
+		return nil
+	}
+	before := func(a, b ssa.Instruction) bool { // a executes before b on every path to b
+		if a.Block() == b.Block() {
+			for _, in := range a.Block().Instrs {
+				if in == a {
+					return true
+				}
+				if in == b {
+					return false
+				}
+			}
+		}
+		return a.Block().Dominates(b.Block())
+	}
+	var bad []string
+	// explicit (non-deferred) unlocks are not allowed in functions that touch the guarded state
+	for _, l := range locks {
+		if (l.kind == "Unlock" || l.kind == "RUnlock") && !l.def {
+			bad = append(bad, fmt.Sprintf("%s unlocks explicitly (only deferred unlocks keep the critical section to the return) (%s)", fnKey(fn), posOf(fn, l.in.Pos())))
+		}
+	}
+	section := func(a acc) *lk {
+		var best *lk
+		for i := range locks {
+			l := &locks[i]
+			if l.def || (l.kind != "Lock" && l.kind != "RLock") {
+				continue
+			}
+			if a.write && l.kind != "Lock" {
+				continue
+			}
+			if before(l.in, a.in) {
+				best = l
+			}
+		}
+		return best
+	}
+	for _, a := range accs {
+		s := section(a)
+		if s == nil {
+			what := "reads"
+			if a.write {
+				what = "writes"
+			}
+			bad = append(bad, fmt.Sprintf("%s %s guarded state without holding the %s (%s)", fnKey(fn), what, map[bool]string{true: "write lock", false: "lock"}[a.write], posOf(fn, a.in.Pos())))
+			continue
+		}
+		if a.write {
+			// check-then-act: every guarded read that precedes the write lies in the same critical section
+			for _, r := range accs {
+				if r.write || !before(r.in, a.in) {
+					continue
+				}
+				if !before(s.in, r.in) {
+					bad = append(bad, fmt.Sprintf("%s decides on a read of the guarded state made outside the critical section of the write that follows (%s)", fnKey(fn), posOf(fn, r.in.Pos())))
+				}
+			}
+		}
+	}
+	return bad
 }
